@@ -18,13 +18,14 @@ PROP = "C35"
 MODULE = "Refinery.Props.C35"
 
 # which scenarios exercise the fields of a struct
-SCENARIOS = ["collector", "sentcache", "stress", "transmit", "config", "watcher", "peers", "metrics", "envcache"]
+SCENARIOS = ["collector", "sentcache", "stress", "transmit", "config", "watcher", "peers", "sharder", "metrics", "envcache"]
 STRUCT_SCENARIOS = {
     "InMemCollector": ["collector"], "CollectorWorker": ["collector"], "SamplerFactory": ["collector"],
     "StressRelief": ["stress", "collector"], "cuckooSentCache": ["sentcache", "collector"],
     "CuckooTraceChecker": ["sentcache", "collector"], "Router": ["envcache"], "environmentCache": ["envcache"],
     "DirectTransmission": ["transmit"], "eventBatch": ["transmit"], "RedisPubsubPeers": ["peers"],
     "fileConfig": ["config", "watcher"], "ConfigWatcher": ["watcher"], "MultiMetrics": ["metrics", "stress"],
+    "DeterministicSharder": ["sharder"],
 }
 
 
@@ -255,6 +256,11 @@ def custom(vc, spec, tier, seed, replay):
         # a report is explained by a listed finding when one of the two racing lines accesses a
         # location that has one (the other line may be any reader/writer of it, or the inside of the
         # object the racy pointer refers to)
+        failing_now = {sig_of(kv["loc"], kv["fn"]) for kv in new_fails}
+        fresh_hit = [s for s in sigs if s in failing_now]
+        if fresh_hit:        # one of the two lines is an unlisted failing access: this is its replay
+            race_new.setdefault(fresh_hit[0], rep)
+            continue
         hit = [s for s in sigs if s in known_sigs]
         if not hit:
             locs = {f["loc"] for f in cands}
@@ -386,7 +392,7 @@ SPEC = dict(
     thorough=dict(cases=0, len=0, shards=1),
     rule="cases = lexical access facts regenerated from the current sources: (Struct.field, function, read|write|atomic, mutexes of "
          "the same receiver lexically held, fresh-object flag) for every selector of a field of the 15 tracked structs in every "
-         "function and function literal of the non-test files of the 9 analysed packages; each fact is decided by "
+         "function and function literal of the non-test files of the 10 analysed packages; each fact is decided by "
          "factComplies against the discipline of its field (in the kernel by facts_comply, and again by the interpreted "
          "report tool that names failures); non-trivial = the verdict depends on synchronisation, i.e. anything but a plain "
          "read of an init-only field (counted by the report tool); evaluations = distinct facts; "
@@ -414,7 +420,7 @@ SPEC = dict(
         "a field that refers to an object which synchronises itself (lru.Cache, SetWithTTL, MapWithTTL, KeptReasonsCache, pool.Pool, "
         "channels, http.Client, the injected interfaces) is tracked as a variable only; what the object does inside is not analysed",
         "only the 15 tracked structs (InMemCollector, CollectorWorker, StressRelief, cuckooSentCache, CuckooTraceChecker, Router, "
-        "environmentCache, DirectTransmission, eventBatch, RedisPubsubPeers, fileConfig, ConfigWatcher, MultiMetrics, SamplerFactory) are "
+        "environmentCache, DirectTransmission, eventBatch, RedisPubsubPeers, fileConfig, ConfigWatcher, MultiMetrics, SamplerFactory, DeterministicSharder) are "
         "covered statically; spans, traces and events handed over channels (ownership transfer) are covered only by the race-detector scenarios",
         "accesses through an expression whose type the stub importer cannot resolve are not seen; selectors that could be such accesses are "
         "listed (unresolvedSelectors) and must be reviewed by hand (obligation unresolved_reviewed)",
@@ -426,9 +432,9 @@ SPEC = dict(
              "lexical test implies compliance for every dynamic access that is an instance of a lexical fact. Tied to the code by a Go "
              "extractor that regenerates, on every run, every lexical access to a field of 15 structs of the concurrent components with "
              "the mutexes lexically held; `facts_comply` (kernel-decided) checks all of them against a hand-written discipline/role table, "
-             "`fields_covered` that every field is classified. The full statement is refuted on the current tree: 12 accesses break "
-             "their discipline, each reproduced as a data race on the real code by race-detector scenarios (real collector+workers+stress "
-             "relief+reload, sent cache, transmission, file config + watcher, peers, metrics).",
+             "`fields_covered` that every field is classified. The full statement is tied to the fix flags of the table (theorem full_statement_status): the accesses "
+             "still listed as findings break their discipline, each reproduced as a data race on the real code by race-detector scenarios (real collector+workers+stress "
+             "relief+reload, sent cache, transmission, file config + watcher, peers, sharder, metrics).",
         note="Partial: the extraction is lexical (no aliasing, no inter-procedural lock passing, no third-party code, objects handed over "
              "channels not tracked) and the role table and lifecycle assumptions are trusted; the race detector is a search aid, not a proof.",
         technique="Lean 4 proof (happens-before argument over traces) + kernel-decided compliance of regenerated lexical lock facts + "
